@@ -238,23 +238,24 @@ type Tok struct {
 	ConsGate         chan struct{} // sub with a stalled consumer: it starts draining when this closes
 	IgnoreCtx        bool          // sub: the producer keeps sending after its context is cancelled
 
-	mu        sync.Mutex
-	Execs     int
-	Conns     []string
-	HCtx      []context.Context
-	HStart    []uint64
-	HEnd      []uint64
-	Invoked   bool
-	InvokeAt  uint64
-	Returned  bool
-	ReturnAt  uint64
-	Val       string
-	RevVal    string // result of a reverse call made by the server-side handler (notifyrev)
-	IVal      int64
-	RetErr    error
-	Cancelled bool // the caller cancelled this call's context
-	CancelAt  uint64
-	Client    string
+	mu         sync.Mutex
+	Execs      int
+	Conns      []string
+	HCtx       []context.Context
+	HStart     []uint64
+	HEnd       []uint64
+	Invoked    bool
+	InvokeAt   uint64
+	Returned   bool
+	ReturnAt   uint64
+	Val        string
+	RevVal     string // result of a reverse call made by the server-side handler (notifyrev)
+	IVal       int64
+	RetErr     error
+	RetErrText string // err.Error() at the moment the call returned
+	Cancelled  bool   // the caller cancelled this call's context
+	CancelAt   uint64
+	Client     string
 }
 
 func (e *Env) Tok(id int) *Tok {
